@@ -452,10 +452,21 @@ def monitor(ck, case, out):
     if out['livelock']:
         report('livelock:' + case['scenario'], 'run did not finish within the step bound')
         return found
-    if term_begin is None:
-        # the link never ended (not expected with the scripted peer): nothing to check
+    rr = out['run_result']
+    if rr is not None and rr.startswith('exc '):
+        # the link loop ended by an exception it does not handle: run() raises instead of returning
+        # (or leaving by SystemExit / KeyboardInterrupt after terminate())
+        report('run-loop-exception:' + rr[4:].split(':')[0],
+               'the llcp run loop ended with an unhandled %s%s' % (rr[4:], '' if term_begin is not None else
+                                                                   ' and terminate() was never called'))
+    if term_begin is None and rr is None:
+        # the link thread is still in its loop (blocked itself, or the step bound): reported below as a hang of
+        # the link thread if it is blocked; nothing else can be said about the application calls
         ck.count('link-never-ended')
-        return found
+        if not any(b['thread'] == 'link' for b in out['blocked']):
+            return found
+    if term_begin is None and rr is not None and not rr.startswith('exc '):
+        ck.count('run-ended-without-terminate')
     # (1) when no thread is runnable no thread is blocked
     for b in out['blocked']:
         api = current_call(out, b['thread']) or ('thread ' + tname(b['thread']))
@@ -952,6 +963,106 @@ def error_family(ck):
                                      % (member, place, out['run_result'], 'not called' if out['term'][0] is None else 'called'), data)
 
 
+def sc_blocked_all(llc, ctx):
+    """one thread in each kind of blocking call: raw recv (40), ldl recvfrom (41), accept (listening at 16),
+    connect (from 32 to 20, never answered), resolve (never answered), recv on an established connection (33 <-> 21)"""
+    r, l, a, c, e = sock(llc, RAW), sock(llc, LDL), sock(llc, DLC), sock(llc, DLC), sock(llc, DLC)
+    r.bind(40)
+    l.bind(41)
+    a.bind('urn:nfc:sn:test')
+    a.listen(2)
+    c.bind(32)
+    e.bind(33)
+
+    def est():
+        if ctx.call('dlc.connect', lambda: e.connect(21))[0] == 'ret':
+            ctx.call('dlc.recv', e.recv)
+    return [('t-raw', lambda: ctx.call('raw.recv', r.recv)), ('t-ldl', lambda: ctx.call('ldl.recvfrom', l.recvfrom)),
+            ('t-acc', lambda: ctx.call('dlc.accept', a.accept)), ('t-con', lambda: ctx.call('dlc.connect', lambda: c.connect(20))),
+            ('t-res', lambda: ctx.call('resolve', lambda: llc.resolve('urn:nfc:sn:x'))), ('t-est', est)]
+
+
+SCENARIOS['blocked-all'] = dict(build=sc_blocked_all, peer=dict(snl=False, cc={21}), ends=(3,))
+
+
+class AppsFirst(S.DefaultChooser):
+    """application threads run whenever they can (so they are all blocked before the peer's PDU arrives)"""
+
+    def choose(self, step, cur, enabled):
+        apps = [t for t in enabled if t.name != 'link']
+        if apps:
+            return cur if cur in apps else apps[0]
+        return enabled[0]
+
+
+def crafted_pdus(quick, rng):
+    """(label, octets): every PDU type with every value of its small enumerated fields, reserved types and
+    parameters, malformed-but-decodable content; addressed to the sockets of sc_blocked_all"""
+    def hdr(dsap, ptype, ssap):
+        return bytes([(dsap << 2) | (ptype >> 2), ((ptype & 3) << 6) | ssap])
+    out = []
+    # DM: all 256 reason octets in answer to the pending CONNECT (32 <- 20), a sample to the other sockets
+    for reason in range(256):
+        out.append(('DM reason %02x -> 32' % reason, hdr(32, 7, 20) + bytes([reason])))
+    for dsap, ssap in ((33, 21), (16, 20), (40, 20), (41, 20), (1, 1), (0, 0), (50, 20)):
+        for reason in (0, 1, 2, 3, 4, 0x10, 0x11, 0x12, 0x20, 0x21, 0x22, 0x7f, 0x80, 0xff):
+            out.append(('DM reason %02x -> %d' % (reason, dsap), hdr(dsap, 7, ssap) + bytes([reason])))
+    # FRMR: all flag nibbles x a few rejected ptypes / sequence octets, to the established and the connecting socket
+    for dsap, ssap in ((33, 21), (32, 20), (16, 20)):
+        for flags in range(16):
+            for ptype in (0, 7, 12, 15):
+                out.append(('FRMR flags %x ptype %x -> %d' % (flags, ptype, dsap),
+                            hdr(dsap, 8, ssap) + bytes([(flags << 4) | ptype, 0x12, 0x34, 0x56])))
+    # every PDU type (incl. reserved 1010b, 1011b, 1110b, 1111b is not defined) with empty / short / long bodies, to every socket
+    bodies = (b'', b'\x00', b'\xff', b'\x01\x01', b'\x02\x02\x00', bytes(range(8)), b'\xff' * 20)
+    for ptype in range(16):
+        for dsap, ssap in ((32, 20), (33, 21), (16, 20), (40, 20), (41, 20), (1, 1), (0, 0)):
+            for body in bodies:
+                out.append(('ptype %x -> %d body %s' % (ptype, dsap, body.hex()[:12]), hdr(dsap, ptype, ssap) + body))
+    # parameters: every TLV type 0..255 with length 0, 1, 2 in CONNECT (to the listener), CC (to the connecting socket), PAX
+    for t in range(256):
+        for val in (b'', b'\x00', b'\xff\xff'):
+            tlv = bytes([t, len(val)]) + val
+            out.append(('CONNECT tlv %02x/%d' % (t, len(val)), hdr(16, 4, 20) + tlv))
+            out.append(('CC tlv %02x/%d' % (t, len(val)), hdr(32, 6, 20) + tlv))
+            if t < 16 or t > 250:
+                out.append(('PAX tlv %02x/%d' % (t, len(val)), hdr(0, 1, 0) + tlv))
+    # SNL with every TLV type, AGF wrapping a reserved DM / nested content, I / RR / RNR sequence octets
+    for t in range(0, 256, 1 if not quick else 3):
+        out.append(('SNL tlv %02x' % t, hdr(1, 9, 1) + bytes([t, 2, 1, 16])))
+    for inner in (hdr(32, 7, 20) + b'\x04', hdr(33, 8, 21) + b'\xf0\x00\x00\x00', hdr(0, 2, 0) + b'\x00\x00', b''):
+        out.append(('AGF [%s]' % inner.hex(), hdr(0, 2, 0) + len(inner).to_bytes(2, 'big') + inner))
+    for seq in range(0, 256, 17):
+        for ptype in (12, 13, 14):
+            out.append(('numbered %x seq %02x' % (ptype, seq), hdr(33, ptype, 21) + bytes([seq]) + (b'data' if ptype == 12 else b'')))
+    if quick:
+        head = out[:256]                                   # all DM reasons
+        rest = out[256:]
+        out = head + rng.sample(rest, 260)
+    return out
+
+
+def crafted_run(octets, role):
+    return L.run_scenario(sc_blocked_all, 'disc', 7, chooser=AppsFirst(), role=role,
+                          peer_kw=dict(cc={21}, snl=False, push={4: [bytes(octets)]}), observe=False)
+
+
+def crafted_pdu_sweep(ck):
+    """the peer sends one crafted PDU while a thread is blocked in every kind of blocking call; afterwards the link
+    ends (remote DISC) - or has ended already because the PDU was refused.  Whatever the PDU: the run loop returns
+    (or leaves by SystemExit / KeyboardInterrupt after terminate()) and nobody is left waiting"""
+    quick = ck.tier == 'quick'
+    for i, (label, octets) in enumerate(crafted_pdus(quick, ck.rng)):
+        role = ('initiator', 'target')[i % 2]
+        out = crafted_run(octets, role)
+        case = {'scenario': 'blocked-all', 'cause': 'disc', 'end_at': 7, 'role': role, 'peer_pdu': octets.hex(), 'pdu': label}
+        ck.case(('pdu', octets, role), True,
+                {'kind': 'crafted peer PDU', 'pdu': label, 'octets': octets.hex()[:24], 'run_result': out['run_result']} if i % 400 == 0 else None)
+        ck.count('crafted-pdu')
+        for k in monitor(ck, case, out):
+            pass
+
+
 def device_still_broken(ck):
     """IOError in the run loop from a device that stays broken: terminate() talks to the device again"""
     for role in ('initiator', 'target'):
@@ -1027,6 +1138,7 @@ def main():
         found |= set(monitor(ck, case, out))
         note_case(ck, case, out, ('corpus',))
         total += 1
+    crafted_pdu_sweep(ck)
     error_family(ck)
     bind_during_terminate(ck)
     connect_returns(ck)          # starts with its own corpus of minimised past failures
@@ -1067,6 +1179,13 @@ def main():
 def replay(ck):
     data = json.load(open(ck.replay))
     case = data['case']
+    if 'peer_pdu' in case:
+        out = crafted_run(bytes.fromhex(case['peer_pdu']), case['role'])
+        print(json.dumps({'blocked': out['blocked'], 'run_result': out['run_result'],
+                          'calls': [(c['thread'], c['api'], c['result']) for c in out['calls']]}, indent=1, default=str))
+        bad = monitor(ck, case, out)
+        print('REPRODUCED' if bad else 'not reproduced')
+        sys.exit(1 if bad else 0)
     if 'schedule' in case and case.get('scenario') in SCENARIOS:
         out = run_case(case, S.Replay(case['schedule']))
         print(json.dumps({'blocked': out['blocked'], 'run_result': out['run_result'],
